@@ -1,7 +1,7 @@
 PROP = {
     "id": "C08",
     "theorem_modules": ["Verif.Properties.C08"],
-    "min_theorems": 19,
+    "min_theorems": 20,
     "required_theorems": [
         "Verif.Properties.C08.rules_unchanged",
         "Verif.Properties.C08.refl",
@@ -20,6 +20,7 @@ PROP = {
         "Verif.Properties.C08.trans_kindstable_partial",
         "Verif.Properties.C08.trans_witness_contravariant",
         "Verif.Properties.C08.trans_checked_partial",
+        "Verif.Properties.C08.runtime_agrees_kindstable_partial",
     ],
     "gen": [["vtool", "gen-rules"]],
     "tool_files": ["tool_rules.go"],
@@ -42,8 +43,10 @@ PROP = {
                   "under the hypothesis that the sub-most type has no `Never` directly below an optional/array/dictionary constructor in covariant "
                   "position and the super-most type none in contravariant position (function parameters); outside that region transitivity really "
                   "fails: `trans_witness` (&[Never] <: &[AnyResource] <: &AnyResource) and `trans_witness_contravariant` "
-                  "(fun(&AnyResource) <: fun(&[AnyResource]) <: fun(&[Never])), both kernel-checked and replayed against Go (known finding). Also: the "
-                  "run-time/checker disagreement on `Never?` as witness, `runtime_agrees_partial`, the 49x49 simple-type table (`simple_agree`) and "
+                  "(fun(&AnyResource) <: fun(&[AnyResource]) <: fun(&[Never])), both kernel-checked and replayed against Go (known finding). "
+                  "`runtime_agrees_kindstable_partial`: the run-time relation (interpreter.IsSubType, which unwraps optionals first) equals the checker's "
+                  "relation for every kind-stable, Any-free sub type incl. optionals; outside: the run-time/checker disagreement on `Never?` as witness. "
+                  "Also `runtime_agrees_partial`, the 49x49 simple-type table (`simple_agree`) and "
                   "49^3 transitivity table. Tied to /repo by the `types` stream: all pairs of 49 simple and 18 nominal types and generated "
                   "pairs / chain-biased triples of structured types (incl. related function and range types) built with the real sema API from a "
                   "universe declared through the real checker; sema.IsSubType, interpreter.IsSubType, IsSubTypeOfSemaType, the hand-written "
